@@ -61,6 +61,7 @@ def render(recipe):
 
     for fidx, f in enumerate(files):
         emit(fidx, 'import threading')
+        emit(fidx, 'import random')
         emit(fidx, 'G_INT = %d' % (fidx + 40))
         emit(fidx, 'G_LIST = [1, 2, 3]')
         emit(fidx, 'G_STR = "glob%d"' % fidx)
@@ -118,6 +119,7 @@ def render(recipe):
                 rec(emit(fidx, '%stry:' % pad))
                 render_body(fidx, fname, stmt[1], indent + 4, self_fi)
                 emit(fidx, '%sexcept %s as err:' % (pad, stmt[2]))
+                emit(fidx, '%s    KEEP(err)' % pad)      # the program keeps the exception objects it caught
                 render_body(fidx, fname, stmt[3] or [['mark', 'type(err).__name__']], indent + 4, self_fi)
                 if stmt[4]:
                     emit(fidx, '%sfinally:' % pad)
@@ -160,6 +162,10 @@ def render(recipe):
             emit(fidx, '        self.seed = seed')
             emit(fidx, '        self._prot = [seed, seed]')
             emit(fidx, '        self.__priv = "s%d" % seed')
+            if fn.get('falsy'):
+                # an instance that is false in a boolean context (an empty container-like object)
+                emit(fidx, '    def __len__(self):')
+                emit(fidx, '        return 0')
             line = emit(fidx, '    def %s(self, %s):' % (fn['name'], ', '.join(params)))
             r.func_lines[(fidx, fn['name'])] = line
             emit(fidx, '        sup = super().describe()')       # zero-arg super(): the frame carries a __class__ cell
@@ -177,7 +183,15 @@ def render(recipe):
         r.func_info.append({'name': fn['name'], 'file': fidx, 'kind': fn['kind'], 'path': files[fidx]['path'],
                             'qual': qual, 'def_line': line})
     entry = funcs[0]
+    if recipe.get('pre_err'):
+        # the program already holds an exception object it caught earlier (a kept last error)
+        emit(0, 'try:')
+        emit(0, '    raise CustomExc(7)')
+        emit(0, 'except CustomExc as _e0:')
+        emit(0, '    KEEP(_e0)')
+    emit(0, 'random.seed(20260102)')        # the host uses the global random generator, from a seed of its own
     emit(0, 'RESULT = %s(%s)' % (entry['name'], ', '.join(['2'] + ['1'] * (entry['nparams'] - 1))))
+    emit(0, 'mark(random.randint(0, 10 ** 9))')
     for fidx, f in enumerate(files):
         r.sources[f['path']] = '\n'.join(per_file_lines[fidx]) + '\n'
     return r
@@ -269,6 +283,12 @@ def run_program(recipe, rendered, tracer=None, values=None, register_sources=Tru
             sys.settrace(old_trace)
         return name
 
+    errs = []
+
+    def KEEP(e):
+        errs.append(e)
+        return e
+
     mods = []
     import types
     for fidx, f in enumerate(files):
@@ -284,6 +304,8 @@ def run_program(recipe, rendered, tracer=None, values=None, register_sources=Tru
         m.SPAWN = SPAWN
         m.RUN = RUN
         m.V = values if values is not None else []
+        m.KEEP = KEEP
+        m.ERRS = errs
         m.CustomExc = CustomExc
         m.CustomBase = CustomBase
 
@@ -293,18 +315,27 @@ def run_program(recipe, rendered, tracer=None, values=None, register_sources=Tru
         # installed here, not through threading.settrace: the bootstrap of this harness-owned thread must not be
         # traced (an agent failure there would block the harness in Thread.start); threads the *program* spawns
         # are traced from their bootstrap on, exactly as application threads are
+        undo = apply_ambient(recipe.get('ambient') or [])
         threading.settrace(tracer)
         sys.settrace(tracer)
         try:
-            # file 0 last: its last statement calls the entry function from module level
-            for m, code in list(zip(mods, codes))[1:] + list(zip(mods, codes))[:1]:
-                exec(code, m.__dict__)
-            res.result = ['ok', canon_obs(mods[0].RESULT)]
-        except BaseException as e:      # noqa
-            res.exc = describe_exc(e, res)
+            try:
+                # file 0 last: its last statement calls the entry function from module level
+                for m, code in list(zip(mods, codes))[1:] + list(zip(mods, codes))[:1]:
+                    exec(code, m.__dict__)
+                res.result = ['ok', canon_obs(mods[0].RESULT)]
+            except BaseException as e:      # noqa
+                res.exc = describe_exc(e, res)
+            res.trace_after['main'] = sys.gettrace()
+            sys.settrace(None)              # from here on harness code: reading the state back is not traced
+            # interpreter-wide and thread-wide settings the program can read back, and the exception objects it kept
+            res.log.append(['ambient', ambient_state()])
+            res.log.append(['kept-exceptions', [exc_shape(e) for e in errs]])
+        finally:
+            for u in reversed(undo):
+                u()
         # the module namespaces are part of the program's final data
         res.log.append(['module-dunders', [sorted(k for k in m.__dict__ if k.startswith('__')) for m in mods]])
-        res.trace_after['main'] = sys.gettrace()
         sys.settrace(None)              # the thread's own teardown is harness code
 
     old = threading.gettrace()
@@ -333,6 +364,76 @@ def run_program(recipe, rendered, tracer=None, values=None, register_sources=Tru
     finally:
         threading.settrace(old)
     return res
+
+
+AMBIENT = ['gc_off', 'gc_threshold', 'reclimit', 'switchinterval', 'decimal_prec', 'warn_filter', 'excepthook']
+
+
+def apply_ambient(names):
+    """Settings the host program made for itself before its code runs; -> undo callables."""
+    import decimal
+    import gc
+    import warnings
+    undo = []
+    for nm in names:
+        if nm == 'gc_off':
+            was = gc.isenabled()
+            gc.disable()
+            undo.append(lambda was=was: gc.enable() if was else gc.disable())
+        elif nm == 'gc_threshold':
+            was = gc.get_threshold()
+            gc.set_threshold(701, 11, 9)
+            undo.append(lambda was=was: gc.set_threshold(*was))
+        elif nm == 'reclimit':
+            was = sys.getrecursionlimit()
+            sys.setrecursionlimit(was + 17)
+            undo.append(lambda was=was: sys.setrecursionlimit(was))
+        elif nm == 'switchinterval':
+            was = sys.getswitchinterval()
+            sys.setswitchinterval(0.0071)
+            undo.append(lambda was=was: sys.setswitchinterval(was))
+        elif nm == 'decimal_prec':
+            ctx = decimal.getcontext()
+            was = ctx.prec
+            ctx.prec = 13
+            undo.append(lambda ctx=ctx, was=was: setattr(ctx, 'prec', was))
+        elif nm == 'warn_filter':
+            was = list(warnings.filters)
+            warnings.simplefilter('error', category=ResourceWarning)
+            undo.append(lambda was=was: warnings.filters.__setitem__(slice(None), was))
+        elif nm == 'excepthook':
+            was = threading.excepthook
+
+            def host_hook(args):
+                pass
+            threading.excepthook = host_hook
+            undo.append(lambda was=was: setattr(threading, 'excepthook', was))
+    return undo
+
+
+def ambient_state():
+    import decimal
+    import gc
+    import warnings
+    return [['gc', gc.isenabled(), list(gc.get_threshold())], ['reclimit', sys.getrecursionlimit()],
+            ['switchinterval', sys.getswitchinterval()], ['decimal', decimal.getcontext().prec],
+            ['warnings', [repr(f[:3]) for f in warnings.filters]], ['cwd', os.getcwd()],
+            ['environ', sorted(os.environ.items())],
+            ['hooks', getattr(sys.excepthook, '__name__', '?'), getattr(threading.excepthook, '__name__', '?'),
+             getattr(sys.unraisablehook, '__name__', '?'), getattr(sys.displayhook, '__name__', '?')],
+            ['sys.path', list(sys.path)], ['stdio', type(sys.stdout).__name__, type(sys.stderr).__name__]]
+
+
+def exc_shape(e):
+    """An exception object as the program can inspect it later: where it travelled and what it is chained to."""
+    tb = e.__traceback__
+    path = []
+    while tb is not None:
+        path.append([os.path.basename(tb.tb_frame.f_code.co_filename), tb.tb_frame.f_code.co_name, tb.tb_lineno])
+        tb = tb.tb_next
+    return [type(e).__name__, path, type(e.__context__).__name__, type(e.__cause__).__name__,
+            e.__suppress_context__, sorted(k for k in getattr(e, '__dict__', {})),
+            list(getattr(e, '__notes__', []))]
 
 
 def describe_exc(e, res):
@@ -384,10 +485,10 @@ def program_recipes(draw, max_funcs=4, max_stmts=6, allow_threads=True, allow_ge
             if prev and not any(f['name'] == prev[0]['name'] and f['file'] == fidx for f in funcs):
                 name = prev[0]['name']
         funcs.append({'name': name, 'file': fidx, 'kind': kinds[i], 'nparams': draw(st.integers(1, 3)),
-                      'body': []})
+                      'body': [], 'falsy': kinds[i] == 'method' and draw(st.booleans())})
 
     def int_expr(scope_int):
-        opts = [st.integers(-3, 9).map(str)]
+        opts = [st.integers(-3, 9).map(str), st.just('random.randint(0, 99)')]
         if scope_int:
             nm = st.sampled_from(scope_int)
             opts += [nm, st.tuples(nm, st.sampled_from(['+', '*', '-']), st.integers(1, 4)).map(
@@ -515,7 +616,8 @@ def program_recipes(draw, max_funcs=4, max_stmts=6, allow_threads=True, allow_ge
         params = ['n'] + ['p%d' % i for i in range(1, funcs[fi]['nparams'])]
         scope_all = list(params) + (['self'] if funcs[fi]['kind'] == 'method' else [])
         funcs[fi]['body'] = gen_body(fi, list(params), scope_all, 0, max_stmts)
-    return {'files': files, 'funcs': funcs}
+    ambient = draw(st.lists(st.sampled_from(AMBIENT), max_size=2, unique=True))
+    return {'files': files, 'funcs': funcs, 'ambient': ambient, 'pre_err': draw(st.booleans())}
 
 
 def scope_table(recipe, rendered):
@@ -613,5 +715,5 @@ def chain_programs(draw, n_values=6, max_depth=5):
             body.append(['ret', 'n + 1'])
         sid += len(body)
         funcs.append({'name': 'f%d' % i, 'file': draw(st.integers(0, len(files) - 1)) if i else 0, 'kind': kind,
-                      'nparams': 1, 'body': body})
+                      'nparams': 1, 'body': body, 'falsy': kind == 'method' and draw(st.booleans())})
     return {'files': files, 'funcs': funcs}, target
